@@ -31,6 +31,7 @@ def oracle(line: str, obs: Obs):
             for r in [cfg["peers"][pi]["realm"]] + a["realms"]:
                 realms.setdefault(r, {}).setdefault(ai, []).append(pi)
     state, ident = {}, {}
+    reqs_from: dict[str, int] = {}          # connection -> request messages read on it (what the default callback compares)
     outstanding: dict[str, set] = {}
     sent_by = {}         # (hbh, e2e) -> app
     for ev, lines in obs.blocks:
@@ -69,6 +70,15 @@ def oracle(line: str, obs: Obs):
                                           "event": ev[:300], "real": str(g), "expected": f"hbh={want['hbh']} e2e={want['e2e']}",
                                           "sig": "answer_waiting_hbh_only" if g["hbh"] == want["hbh"] and " | sethbh " in line else None})
                 continue
+            if len(eligible) > 1 and len(outs) == 1 and outs[0][0] in eligible:
+                # the default selection callback takes the peer that has sent the fewest requests (the first of them on a tie);
+                # judged only where that peer is clear by a margin of two
+                ranked = sorted(eligible, key=lambda c: reqs_from.get(c, 0))
+                if reqs_from.get(ranked[1], 0) - reqs_from.get(ranked[0], 0) >= 2 and outs[0][0] != ranked[0]:
+                    fails.append({"what": "request not sent to the peer the selection callback picks among exactly the eligible ready "
+                                          "peers (default callback: the peer with the fewest requests so far)", "event": ev[:200],
+                                  "real": outs[0][0], "expected": ranked[0],
+                                  "counts": str({c: reqs_from.get(c, 0) for c in eligible})})
             if not eligible:
                 if outs or not any("NotRoutable" in r for r in raised):
                     fails.append({"what": "request sent although no eligible ready peer exists (or no not-routable error raised)",
@@ -109,13 +119,20 @@ def oracle(line: str, obs: Obs):
                     if not answered_in_wait and got:
                         fails.append({"what": "blocked sender received an answer that does not bear its identifiers",
                                       "event": ev[:300], "real": str(got), "sig": "answer_waiting_hbh_only" if collide else None})
+        if t[0] == "rx":
+            for dmsg in t[2:]:
+                try:
+                    if parse_msg(dmsg)["R"]:
+                        reqs_from[f"c{t[1]}"] = reqs_from.get(f"c{t[1]}", 0) + 1
+                except Exception:  # noqa
+                    pass
         if t[0] == "rx" and len(t) == 3:
             m = parse_msg(t[2])
             if not m["R"] and m["cmd"] == 272:
                 anss = [l for l in lines if l.startswith("APP ") and " ANS " in l]
                 owner = sent_by.get((m["hbh"], m["e2e"]))
                 c = f"c{t[1]}"
-                if state.get(c) in ("READY", "WAITDWA"):
+                if state.get(c) in ("READY", "WAITDWA", "DISCONNECTING"):
                     want = [f"APP a{owner} ANS cmd=272 hbh={m['hbh']} e2e={m['e2e']}"] if owner is not None else []
                     if anss != want:
                         fails.append({"what": "an answer nobody waits for was not passed to (only) the unexpected-answer handler of "
@@ -214,6 +231,20 @@ def scenarios(rng: random.Random, tier: str):
     inner = ("req_0_" + nodegen.ccr(0, 0, "node.local", "realm2.local") + "_2_" +
              "rx~0~" + nodegen.cca(2001, 268435464, "peer2.x"))
     out.append(pre + f" | req 0 {nodegen.ccr(0, 0, 'node.local')} 3 {inner}")
+    # two ready peers of one application, one of them awaiting the answer to the node's own watchdog request: both are
+    # eligible, the default callback takes the one that has sent fewer requests
+    lb = ("NODE host=node.local;realm=realm.local;idle=9999;dwa=9999;peer:peer2.x,realm.local,0,0,30,1,0,-,-,-,5;"
+          "peer:peer3.x,realm.local,0,0,30,1,0,-,-,-,-;app:4,1,0,b,0,0+1,-")
+    for busy, quiet in ((1, 0), (0, 1)):
+        prel = lb + " | start | acc | rx 0 " + nodegen.cer("peer2.x", "4", n(), n()) + " | acc | rx 1 " + nodegen.cer("peer3.x", "4", n(), n())
+        chat = " | ".join(f"rx {busy} " + nodegen.dwr(n(), n(), NAMES[busy + 1]) for _ in range(4))
+        # (after 6 s the connection of peer2 has been idle for longer than its 5 s: DWR sent, awaiting the DWA)
+        out.append(prel + f" | adv 6 | {chat} | req 0 {nodegen.ccr(0, 0, 'node.local')} 1 | req 0 {nodegen.ccr(0, 0, 'node.local')} 1")
+    # the peer starts the disconnect while a request is outstanding: its answer still arrives (in time / late)
+    pred = CFG + " | start | acc | rx 0 " + nodegen.cer("peer2.x", "4", n(), n())
+    hb0, e = 2001, 268435464
+    out.append(pred + f" | req 0 {nodegen.ccr(0, 0, 'node.local')} 5 rx_0_{nodegen.dpr(n(), n(), 'peer2.x')} rx_0_{nodegen.cca(hb0, e, 'peer2.x')}")
+    out.append(pred + f" | req 0 {nodegen.ccr(0, 0, 'node.local')} 1 | rx 0 {nodegen.dpr(n(), n(), 'peer2.x')} | rx 0 {nodegen.cca(hb0, e, 'peer2.x')}")
     # the same two outstanding requests with the generators as the node starts them (no sethbh): the identifiers the node
     # draws are learnt from a dry run without the answer, then the answer to the outer request arrives while the inner sender
     # is blocked on the other connection - each sender gets its own answer or times out
